@@ -89,14 +89,10 @@ OBLIGATIONS = [
     kani("c09_n50_no_walls", ["C09"], "C09.corner", "N50Data::from(&EnergyProps)", bounded="element maps empty; every global scalar symbolic"),
     # ---- C13 ------------------------------------------------------------------------------------------
     kani("c13_aabb_join", ["C13"], "C13.aabb.join", "AABB::join / AABB::default"),
-    kani("c13_aabb_mono_x", ["C13"], "C13.aabb.mono", "AABB::intersects / AABB::join (one axis; the other two slabs unbounded)", bounded="per-axis: the slab under test symbolic, the other two (-inf, +inf)", tier="thorough", timeout=3000),
-    kani("c13_aabb_mono_y", ["C13"], "C13.aabb.mono", "AABB::intersects / AABB::join (one axis; the other two slabs unbounded)", bounded="per-axis: the slab under test symbolic, the other two (-inf, +inf)", tier="thorough", timeout=3000),
-    kani("c13_aabb_mono_z", ["C13"], "C13.aabb.mono", "AABB::intersects / AABB::join (one axis; the other two slabs unbounded)", bounded="per-axis: the slab under test symbolic, the other two (-inf, +inf)", tier="thorough", timeout=3000),
     verus("bvh_builder", ["C13", "C14"], "C13.builder", "BVH::generate_node_list"),
     # ---- C17 / C03 (convert) -------------------------------------------------------------------------
     kani("c17_day_of_year", ["C17"], "C17.doy", "convert::from_ctehexml::day_of_year"),
     kani("c03_azimuth_convention", ["C03"], "C03.azimuth", "convert::orientation_bdl_to_52016"),
-    kani("c03_azimuth_shift", ["C03"], "C03.azimuth.shift", "convert::orientation_bdl_to_52016 (consequence of C03.azimuth: both sides are congruent to 180 - x; 100-600 s, thorough only)", tier="thorough", timeout=3000),
     kani("c03_mirror_y_1", ["C03"], "C03.mirror", "hulc::bdl::Polygon::mirror_y", pkg="hulc", bounded="polygon of 1 vertices, symbolic coordinates", timeout=600),
     kani("c03_mirror_y_3", ["C03"], "C03.mirror", "hulc::bdl::Polygon::mirror_y", pkg="hulc", bounded="polygon of 3 vertices, symbolic coordinates", timeout=600),
     kani("c03_mirror_y_4", ["C03"], "C03.mirror", "hulc::bdl::Polygon::mirror_y", pkg="hulc", bounded="polygon of 4 vertices, symbolic coordinates", timeout=600),
